@@ -12,7 +12,7 @@ import (
 
 // C06 — The FIB always equals the flattening of the currently registered routes.
 func C06(c *core.Ctx) {
-	c.Explain = "Decides structural necessary conditions of C06; the flattening itself over all histories is behavioural and not decided. (R6.1) in RibEntry.updateNexthopsEnc every call that mutates the FIB (ClearNextHopsEnc / InsertNextHopEnc) is reachable only on the edge asserting that the entry is a named one (Name != nil) — name-less filler nodes would address the root FIB entry; the recursion into children is unconditional so inheritance still propagates through fillers; (R6.2) inherited routes are collected only when the entry itself holds no capture route, only child-inherit routes are taken from ancestors, and the ancestor walk has an exit on the edge asserting HasCaptureRoute() of the loop cursor placed after that ancestor's routes were taken; (R6.3) the per-face cost is overwritten only under 'absent ∨ cheaper'; (R6.4) every function that stores to RibEntry.routes or Route.Cost/Flags reaches updateNexthopsEnc of that entry on all exits, face removal reaches Rib.CleanUpFace, which recurses into every child; (R6.5) the face-cleanup scan over an entry's routes has no exit other than exhaustion (routes are keyed by (face, origin), so several may match)."
+	c.Explain = "Decides structural necessary conditions of C06; the flattening itself over all histories is behavioural and not decided. (R6.1) in RibEntry.updateNexthopsEnc every call that mutates the FIB (ClearNextHopsEnc / InsertNextHopEnc / SetNextHopsEnc) is reachable only on the edge asserting that the entry is a named one (Name != nil) — name-less filler nodes would address the root FIB entry; the recursion into children is unconditional so inheritance still propagates through fillers; (R6.2) inherited routes are collected only when the entry itself holds no capture route, only child-inherit routes are taken from ancestors, and the ancestor walk has an exit on the edge asserting HasCaptureRoute() of the loop cursor placed after that ancestor's routes were taken; (R6.3) the per-face cost is overwritten only under 'absent ∨ cheaper'; (R6.4) every function that stores to RibEntry.routes or Route.Cost/Flags reaches updateNexthopsEnc of that entry on all exits, face removal reaches Rib.CleanUpFace, which recurses into every child; (R6.5) the face-cleanup scan over an entry's routes has no exit other than exhaustion (routes are keyed by (face, origin), so several may match)."
 	c.RuleText = "instances: FIB-mutator calls in fw/table/rib.go, the ancestor walk, the min-cost map update, every function storing to RibEntry.routes / Route.Cost / Route.Flags (discovered by scanning stores), face-table removal. Non-trivial = has a branch edge or path to decide."
 	p := c.P
 	// ---- R6.9 (shared with C08 R8.4) the RIB's prune walk unlinks only entries that have
@@ -42,6 +42,7 @@ func C06(c *core.Ctx) {
 		for _, ci := range core.FindCallsDeep(up,
 			core.CalleeID{Pkg: "fw/table", Recv: "FibStrategy", Name: "ClearNextHopsEnc"},
 			core.CalleeID{Pkg: "fw/table", Recv: "FibStrategy", Name: "InsertNextHopEnc"},
+			core.CalleeID{Pkg: "fw/table", Recv: "FibStrategy", Name: "SetNextHopsEnc"},
 			core.CalleeID{Pkg: "fw/table", Recv: "FibStrategy", Name: "RemoveNextHopEnc"}) {
 			muts = append(muts, ci)
 			_, a := core.CallArgs(ci.Common())
@@ -50,17 +51,17 @@ func C06(c *core.Ctx) {
 		c.Floor("R6.1", "FIB mutator calls in updateNexthopsEnc", len(muts), 2)
 		res := core.GateDeep(up, muts, pos(named))
 		c.Decide(res.OK && res.PassEdges > 0, "R6.1", "fib-writes-only-for-named-entries", p.Pos(up.Pos()),
-			"ClearNextHopsEnc/InsertNextHopEnc reachable only when the entry has a name",
+			"the FIB mutators (ClearNextHopsEnc / InsertNextHopEnc / SetNextHopsEnc) are reachable only when the entry has a name",
 			"a name-less filler RIB node can write to the FIB: a nil name addresses the root entry in both FIB implementations, so inherited routes show up as next hops of '/'; path: "+p.PathString(res.Path))
 		// R6.1b: next hops are installed only for entries that hold routes of their own
 		hasRoutes := atomLenFieldPositive("routes", func(b ssa.Value) bool { return core.Same(b, r) })
 		var inserts []ssa.Instruction
-		for _, ci := range core.FindCallsDeep(up, core.CalleeID{Pkg: "fw/table", Recv: "FibStrategy", Name: "InsertNextHopEnc"}) {
+		for _, ci := range core.FindCallsDeep(up, core.CalleeID{Pkg: "fw/table", Recv: "FibStrategy", Name: "InsertNextHopEnc"}, core.CalleeID{Pkg: "fw/table", Recv: "FibStrategy", Name: "SetNextHopsEnc"}) {
 			inserts = append(inserts, ci)
 		}
 		res = core.GateDeep(up, inserts, pos(hasRoutes))
 		c.Decide(len(inserts) > 0 && res.OK && res.PassEdges > 0, "R6.1", "fib-inserts-only-for-entries-with-routes", p.Pos(up.Pos()),
-			"InsertNextHopEnc reachable only when len(entry.routes) > 0",
+			"InsertNextHopEnc / SetNextHopsEnc reachable only when len(entry.routes) > 0",
 			"an entry without routes of its own gets inherited next hops installed under its name: when that entry is pruned afterwards (last route removed) nothing refreshes the FIB entry again and next hops of later-removed routes remain; path: "+p.PathString(res.Path))
 		// recursion into children on every exit path
 		isRec := func(in ssa.Instruction) bool {
